@@ -5,6 +5,7 @@ package c13
 import (
 	"fmt"
 	"math/big"
+	"sync"
 	"testing"
 
 	bls "github.com/cloudflare/circl/ecc/bls12381"
@@ -139,6 +140,27 @@ func g1Adapter() *adapter {
 		R.ScalarMult(blsScalar(k, blsScalarBytes), p.(*bls.G1))
 		return &R
 	}
+	ad.isEqual = func(p, q pt) bool { return p.(*bls.G1).IsEqual(q.(*bls.G1)) }
+	ad.isIdentity = func(p pt) bool { return p.(*bls.G1).IsIdentity() }
+	ad.aliasOps = []aliasOp{
+		{"g.Add(g,Q)", func(P, Q pt, k *big.Int) pt { g := P.(*bls.G1); g.Add(g, Q.(*bls.G1)); return g }, expSum},
+		{"g.Add(P,g)", func(P, Q pt, k *big.Int) pt { g := Q.(*bls.G1); g.Add(P.(*bls.G1), g); return g }, expSum},
+		{"g.Add(g,g)", func(P, Q pt, k *big.Int) pt { g := P.(*bls.G1); g.Add(g, g); return g }, expDbl},
+		{"g.ScalarMult(k,g)", func(P, Q pt, k *big.Int) pt {
+			g := P.(*bls.G1)
+			g.ScalarMult(blsScalar(k, blsScalarBytes), g)
+			return g
+		}, expMul},
+		{"P-after-being-an-operand", func(P, Q pt, k *big.Int) pt {
+			p := P.(*bls.G1)
+			var R bls.G1
+			R.Add(p, Q.(*bls.G1))
+			R.ScalarMult(blsScalar(k, blsScalarBytes), p)
+			_ = p.Bytes()
+			_ = p.BytesCompressed()
+			return p
+		}, func(a, b, k *big.Int) *big.Int { return a }},
+	}
 	return ad
 }
 
@@ -161,6 +183,27 @@ func g2Adapter() *adapter {
 		var R bls.G2
 		R.ScalarMult(blsScalar(k, blsScalarBytes), p.(*bls.G2))
 		return &R
+	}
+	ad.isEqual = func(p, q pt) bool { return p.(*bls.G2).IsEqual(q.(*bls.G2)) }
+	ad.isIdentity = func(p pt) bool { return p.(*bls.G2).IsIdentity() }
+	ad.aliasOps = []aliasOp{
+		{"g.Add(g,Q)", func(P, Q pt, k *big.Int) pt { g := P.(*bls.G2); g.Add(g, Q.(*bls.G2)); return g }, expSum},
+		{"g.Add(P,g)", func(P, Q pt, k *big.Int) pt { g := Q.(*bls.G2); g.Add(P.(*bls.G2), g); return g }, expSum},
+		{"g.Add(g,g)", func(P, Q pt, k *big.Int) pt { g := P.(*bls.G2); g.Add(g, g); return g }, expDbl},
+		{"g.ScalarMult(k,g)", func(P, Q pt, k *big.Int) pt {
+			g := P.(*bls.G2)
+			g.ScalarMult(blsScalar(k, blsScalarBytes), g)
+			return g
+		}, expMul},
+		{"P-after-being-an-operand", func(P, Q pt, k *big.Int) pt {
+			p := P.(*bls.G2)
+			var R bls.G2
+			R.Add(p, Q.(*bls.G2))
+			R.ScalarMult(blsScalar(k, blsScalarBytes), p)
+			_ = p.Bytes()
+			_ = p.BytesCompressed()
+			return p
+		}, func(a, b, k *big.Int) *big.Int { return a }},
 	}
 	return ad
 }
@@ -412,4 +455,82 @@ func TestC13Pairing(t *testing.T) {
 			}
 		})
 	})
+}
+
+// TestC13PairingConcurrent: pairings, products of pairings and hash-to-group from several goroutines at
+// once; every result must equal the value obtained sequentially (and checked by the other sub-checks).
+func TestC13PairingConcurrent(t *testing.T) {
+	defer vlib.Done()
+	selftest(t)
+	sub := "concurrent/bls12381.pairing+hash"
+	a1 := g1Adapter()
+	r := a1.r
+	e0 := bls.Pair(bls.G1Generator(), bls.G2Generator())
+	type task struct {
+		name string
+		run  func() []byte
+		want []byte
+	}
+	var tasks []task
+	for i := 0; i < 4; i++ {
+		kb := make([]byte, 64)
+		vlib.ExpandInto(kb, uint64(vlib.Seed)*77+uint64(i))
+		p := new(big.Int).Mod(new(big.Int).SetBytes(kb[:32]), r)
+		q := new(big.Int).Mod(new(big.Int).SetBytes(kb[32:]), r)
+		P, Q, O := mkG1(p), mkG2(q), mkG1(big.NewInt(0))
+		want, _ := gtExp(e0, new(big.Int).Mul(p, q), r).MarshalBinary()
+		tasks = append(tasks, task{"Pair", func() []byte { b, _ := bls.Pair(P, Q).MarshalBinary(); return b }, want})
+		one := blsScalar(big.NewInt(1), 32)
+		tasks = append(tasks, task{"ProdPair", func() []byte {
+			b, _ := bls.ProdPair([]*bls.G1{P, O}, []*bls.G2{Q, Q}, []*bls.Scalar{one, one}).MarshalBinary()
+			return b
+		}, want})
+		tasks = append(tasks, task{"ProdPairFrac", func() []byte {
+			b, _ := bls.ProdPairFrac([]*bls.G1{O, P}, []*bls.G2{Q, Q}, []int{-1, 1}).MarshalBinary()
+			return b
+		}, want})
+		msg, dst := kb[:20+i], kb[40:50]
+		var H1 bls.G1
+		var H2 bls.G2
+		H1.Hash(msg, dst)
+		H2.Hash(msg, dst)
+		w1, w2 := H1.Bytes(), H2.Bytes()
+		tasks = append(tasks, task{"G1.Hash", func() []byte { var h bls.G1; h.Hash(msg, dst); return h.Bytes() }, w1})
+		tasks = append(tasks, task{"G2.Hash", func() []byte { var h bls.G2; h.Hash(msg, dst); return h.Bytes() }, w2})
+	}
+	for _, tk := range tasks {
+		if fmt.Sprintf("%x", tk.run()) != fmt.Sprintf("%x", tk.want) {
+			t.Skipf("sequential value already differs for %s (reported by the pairing sub-checks)", tk.name)
+		}
+	}
+	const G = 8
+	rounds := vlib.N(3, 12)
+	var wg sync.WaitGroup
+	errs := make(chan string, G)
+	for g := 0; g < G; g++ {
+		wg.Add(1)
+		go func(g int) {
+			defer wg.Done()
+			for rd := 0; rd < rounds; rd++ {
+				for i := range tasks {
+					tk := tasks[(i+g)%len(tasks)]
+					if fmt.Sprintf("%x", tk.run()) != fmt.Sprintf("%x", tk.want) {
+						select {
+						case errs <- tk.name:
+						default:
+						}
+						return
+					}
+				}
+			}
+		}(g)
+	}
+	wg.Wait()
+	close(errs)
+	vlib.EvalN(sub, int64(G*rounds*len(tasks)))
+	for e := range errs {
+		vlib.ReportDirect(t, "C13/bls12381."+e+"/wrong-under-concurrency", e, map[string]interface{}{"goroutines": G})
+		return
+	}
+	vlib.NonTrivialH(sub, "concurrent-batch", vlib.Hash64([]byte{byte(vlib.Seed), byte(vlib.Shard)}))
 }
